@@ -1,7 +1,9 @@
 """C21 -- x86 backend code computes the source results and honours the SysV ABI.
 
 Tie.  Every generated func/arith integer function (i64 mostly, also i32/i16/i8; constants incl. 0 and values
-outside si32, add/mul chains and wide trees, argument reuse, 0..10 arguments, dead code, a few unsupported `subi`)
+outside si32, add/mul chains and wide trees, argument reuse, 0..10 arguments, dead code, a few unsupported `subi`;
+plus 7..10-parameter shapes in which only SOME parameters are used -- an unused stack-passed parameter before a used
+one -- and in which a stack-passed parameter is only read: returned directly, or used only as a left operand)
 is pushed through the REAL documented pipeline (convert-func-to-x86-func, convert-arith-to-x86,
 reconcile-unrealized-casts, canonicalize, dce, x86-allocate-registers, canonicalize,
 x86-prologue-epilogue-insertion, -t x86-asm).  Per program three observables of the real run are compared, in one
@@ -13,7 +15,8 @@ coqc round, with the Coq model (coq/C21/Model.v) evaluated by vm_compute:
               and is not re-modelled), its second canonicalize and its prologue/epilogue insertion; the Coq
               predicate alloc_ok (hypothesis of the theorems) must be true of every real allocation;
   (execution) the parsed REAL assembly executed by the Coq x86-64 subset machine on boundary/random argument
-              vectors (garbage upper bits for narrow types, stack-passed arguments, a sentinel in every
+              vectors (one vector with a distinct value in every slot, garbage upper bits for narrow types, stack-passed
+              arguments, a sentinel in every
               callee-saved register, the trampoline's real return address in the return slot) vs the NATIVE
               execution of the same text (as/gcc + ctypes trampoline, in a forked child): rax, rbx, rbp, r12-r15
               and the rsp delta must agree exactly -- also on the defective programs -- and the Coq reference
@@ -648,8 +651,11 @@ def gen_const(rng, w):
 
 def gen_program(rng, thorough=False):
     w = rng.choices([64, 32, 16, 8], weights=[66, 18, 8, 8])[0]
+    shape = rng.choices(["chain", "wide", "random", "tiny", "sparse", "retstack", "leftonly"],
+                        weights=[22, 22, 22, 8, 12, 5, 9])[0]
+    if shape in ("sparse", "retstack", "leftonly"):
+        return gen_stack_shape(rng, w, shape)
     n = rng.choices(range(0, 11), weights=[2, 5, 8, 8, 6, 5, 7, 10, 10, 7, 5])[0]
-    shape = rng.choices(["chain", "wide", "random", "tiny"], weights=[30, 30, 30, 10])[0]
     k = {"tiny": rng.randint(0, 2), "chain": rng.randint(1, 10), "wide": rng.randint(2, 7),
          "random": rng.randint(1, 12)}[shape]
     ops, nv = [], n
@@ -696,8 +702,77 @@ def gen_program(rng, thorough=False):
     return {"w": w, "n": n, "ops": ops, "ret": ret}
 
 
+def gen_stack_shape(rng, w, shape):
+    """functions with 7..10 parameters that touch only SOME of them -- in particular some stack-passed
+    parameters are unused while later ones are used -- and that read a stack-passed parameter without
+    ever copying it (returned directly, or only as the LEFT operand, which the lowering reads in place)"""
+    n = rng.choices([7, 8, 9, 10], weights=[2, 4, 3, 3])[0]
+    stack = list(range(6, n))
+    ops = []
+    if shape == "retstack":
+        # return a stack parameter directly, possibly next to dead / unrelated code
+        g = rng.choice(stack)
+        for _ in range(rng.choice([0, 0, 1, 2])):
+            ops.append([rng.choice(["add", "mul"]), rng.randrange(n), rng.randrange(n)])
+        return {"w": w, "n": n, "ops": ops, "ret": g}
+    if shape == "leftonly":
+        # acc = g op x (g a stack parameter, left operand only), a short chain on top; the right operands are
+        # register parameters, constants or earlier results
+        g = rng.choice(stack)
+        nv = n
+
+        def right():
+            r = rng.random()
+            if r < 0.55:
+                return rng.randrange(0, 6)
+            if r < 0.8 and nv > n:
+                return rng.randrange(n, nv)
+            return rng.choice(stack)
+        if rng.random() < 0.3:
+            ops.append(["c", rng.choice([1, 2, 3, -1, 7])])
+            nv += 1
+        ops.append([rng.choice(["add", "mul"]), g, right()])
+        acc = nv
+        nv += 1
+        for _ in range(rng.choice([0, 0, 1, 2])):
+            left = rng.choice([g, acc, rng.choice(stack)])
+            ops.append([rng.choice(["add", "mul"]), left, right()])
+            acc = nv
+            nv += 1
+        return {"w": w, "n": n, "ops": ops, "ret": acc}
+    # sparse: a random subset of the parameters is used; make sure a stack parameter is used and, most of the
+    # time, that an EARLIER stack parameter is not
+    used = [i for i in range(n) if rng.random() < 0.45]
+    late = rng.choice(stack[1:] if len(stack) > 1 else stack)
+    if late not in used:
+        used.append(late)
+    if rng.random() < 0.8:
+        skip = rng.choice([i for i in stack if i < late] or [late])
+        used = [i for i in used if i != skip or i == late]
+    used = sorted(set(used))
+    vals = list(used)
+    nv = n
+    todo = list(used)
+    rng.shuffle(todo)
+    acc = todo.pop()
+    while todo:
+        x = todo.pop()
+        ops.append([rng.choice(["add", "mul", "add"]), acc, x] if rng.random() < 0.5
+                   else [rng.choice(["add", "mul", "add"]), x, acc])
+        acc = nv
+        vals.append(nv)
+        nv += 1
+    if rng.random() < 0.3 and nv > n:
+        ops.append(["c", gen_const(rng, w) if w < 64 else rng.choice([0, 1, -1, 5])])
+        ops.append([rng.choice(["add", "mul"]), acc, nv])
+        nv += 2
+        acc = nv - 1
+    return {"w": w, "n": n, "ops": ops, "ret": acc}
+
+
 def gen_vecs(rng, case, count):
     n, w = case["n"], case["w"]
+    m = (1 << w) - 1
     vecs = []
     for j in range(count):
         v = []
@@ -705,12 +780,15 @@ def gen_vecs(rng, case, count):
             r = rng.random()
             if j == 0:
                 x = rng.choice(BOUNDARY64)
+            elif j == 1 or r >= 0.55:
+                x = rng.getrandbits(64)          # narrow types: garbage in the upper bits (ABI leaves them undefined)
             elif r < 0.4:
                 x = rng.choice(BOUNDARY64)
-            elif r < 0.55:
-                x = rng.getrandbits(64) & ((1 << w) - 1)
             else:
-                x = rng.getrandbits(64)          # narrow types: garbage in the upper bits (ABI leaves them undefined)
+                x = rng.getrandbits(64) & m
+            if j == 1:                           # a DISTINCT argument (low w bits) in every slot
+                while any((x ^ y) & m == 0 for y in v) or x & m in (0, 1):
+                    x = rng.getrandbits(64)
             v.append(x)
         vecs.append(v)
     return vecs
@@ -722,6 +800,13 @@ SEEDS = [
     {"w": 64, "n": 7, "ops": [["add", 6, 0]], "ret": 7},
     {"w": 64, "n": 10, "ops": [["add", 9, 8], ["mul", 10, 7], ["add", 11, 6]], "ret": 12},
     {"w": 64, "n": 9, "ops": [["c", 3], ["mul", 8, 9], ["add", 10, 6], ["add", 11, 7]], "ret": 12},
+    # an unused stack-passed parameter before a used one; a stack parameter that is only read
+    {"w": 64, "n": 8, "ops": [["add", 7, 0]], "ret": 8},
+    {"w": 64, "n": 9, "ops": [["mul", 8, 6]], "ret": 9},
+    {"w": 64, "n": 7, "ops": [], "ret": 6},
+    {"w": 64, "n": 8, "ops": [["add", 7, 0]], "ret": 7},
+    {"w": 64, "n": 8, "ops": [["add", 6, 0], ["mul", 7, 8]], "ret": 9},
+    {"w": 32, "n": 9, "ops": [["mul", 8, 1]], "ret": 9},
     # narrow types and callee-saved registers
     {"w": 32, "n": 8, "ops": [["c", -3], ["mul", 7, 8], ["add", 9, 6]], "ret": 10},
     {"w": 32, "n": 2, "ops": [["c", -3], ["mul", 0, 2], ["add", 3, 1], ["add", 4, 0], ["mul", 5, 1], ["add", 6, 2],
@@ -1029,11 +1114,10 @@ def generate(ctx: Ctx):
                                                 if k not in ("binop_table",)}, default=str)[:700])
 
 
-def run(ctx: Ctx):
+def make_programs(ctx: Ctx):
     rng = ctx.rng
     thorough = ctx.tier == "thorough"
     nprog = 1500 if thorough else 170
-    nvec = 6 if thorough else 4
     progs = [dict(c) for c in SEEDS]
     for e in ctx.known_findings + ctx.fixed_findings:
         if "witness" in e:
@@ -1044,6 +1128,26 @@ def run(ctx: Ctx):
         if prog_key(c) not in seen:
             seen.add(prog_key(c))
             progs.append(c)
+    return progs
+
+
+def make_cases(ctx: Ctx):
+    """programs of this run with argument vectors for those the pipeline accepts (used by mutation experiments)"""
+    progs = make_programs(ctx)
+    nvec = 6 if ctx.tier == "thorough" else 4
+    cases = []
+    for c in progs:
+        d = dict(c)
+        d["vecs"] = gen_vecs(ctx.rng, c, nvec) if compile_case(c)["status"] == "ok" else []
+        cases.append(d)
+    return progs, cases
+
+
+def run(ctx: Ctx):
+    rng = ctx.rng
+    thorough = ctx.tier == "thorough"
+    nvec = 6 if thorough else 4
+    progs = make_programs(ctx)
     stats = {"accepted": 0, "rejected": {}, "unmodelled": 0, "widths": {}, "nargs": {}, "uncovered_lines": 0,
              "emitted_lines": 0, "with_prologue": 0, "with_stack_loads": 0}
     ok_cases, oracle_only, unmodelled = [], [], []
